@@ -101,7 +101,8 @@ type Conn struct {
 	outer *clientHello
 	inner *clientHello
 
-	hpkeCtx *hpke.Receipient
+	hpkeCtx    *hpke.Receipient
+	publicName string
 
 	keys             []Key
 	debugf           func(string, ...any)
@@ -197,7 +198,10 @@ func (c *Conn) processEncryptedClientHello(h *clientHello, isRetry bool) (*clien
 		}) == -1 {
 			continue
 		}
-		if c.hpkeCtx == nil && len(h.echExt.Enc) > 0 {
+		// Each candidate key gets its own HPKE context. The context is
+		// retained only when the payload opens with it.
+		hpkeCtx := c.hpkeCtx
+		if hpkeCtx == nil && len(h.echExt.Enc) > 0 {
 			echPriv, err := hpke.ParseHPKEPrivateKey(cfg.KEM, key.PrivateKey)
 			if err != nil {
 				return nil, err
@@ -207,22 +211,28 @@ func (c *Conn) processEncryptedClientHello(h *clientHello, isRetry bool) (*clien
 			if err != nil {
 				continue
 			}
-			c.hpkeCtx = ctx
+			hpkeCtx = ctx
 		}
-		if c.hpkeCtx == nil {
+		if hpkeCtx == nil {
 			return nil, ErrIllegalParameter
 		}
 		aad, err := h.marshalAAD()
 		if err != nil {
 			return nil, err
 		}
-		innerBytes, err = c.hpkeCtx.Open(aad, h.echExt.Payload)
+		b, err := hpkeCtx.Open(aad, h.echExt.Payload)
 		if err != nil {
 			continue
 		}
-		if string(cfg.PublicName) != h.ServerName {
+		if c.hpkeCtx == nil {
+			c.hpkeCtx = hpkeCtx
+			c.publicName = string(cfg.PublicName)
+		}
+		if c.publicName != h.ServerName {
 			return nil, ErrIllegalParameter
 		}
+		innerBytes = b
+		break
 	}
 	if innerBytes == nil {
 		// Section 7.1.1, regarding a retried ClientHello:
